@@ -1,6 +1,7 @@
 package main
 
 import (
+	"regexp"
 	"encoding/json"
 	"fmt"
 	"go/token"
@@ -330,6 +331,26 @@ type ruleFn struct {
 	Doc  string
 	Run  func(c *Ctx, r *Rep)
 	Ctrl bool // a positive control exists for this rule
+	// Only, when set, restricts a shared rule to the instances (obligation keys) that bear on this property:
+	// the other instances of the rule are decided under the property that owns it.
+	Only string
+}
+
+// run applies the rule, keeping only the instances selected by Only.
+func (rule ruleFn) run(c *Ctx, r *Rep) {
+	n0 := len(r.Obs)
+	rule.Run(c, r)
+	if rule.Only == "" {
+		return
+	}
+	re := regexp.MustCompile(rule.Only)
+	kept := r.Obs[:n0:n0]
+	for _, o := range r.Obs[n0:] {
+		if o.Rule == "floor" || o.Rule == "panic" || re.MatchString(o.Key) {
+			kept = append(kept, o)
+		}
+	}
+	r.Obs = kept
 }
 
 func finish(c *Ctx, r *Rep, p *propInfo, tier string, start time.Time, extra map[string]any, controlsLoaded bool) int {
